@@ -24,7 +24,8 @@ RULE = ("A registry of call specifications (about 120) covering the public "
         "violin / putils). Hypothesis draws the specification, the data "
         "(unsorted values, sizes 5..40, ensembles of 2..5 members) and the "
         "argument variant: C-contiguous / Fortran-ordered / strided view x "
-        "float64 / float32 / int64 / int32 x ndarray / Series / DataFrame. "
+        "float64 / float32 / int64 / int32 x ndarray / Series / DataFrame x "
+        "content (as drawn / NaN first / negative first / NaN scattered). "
         "Oracle: snapshot (bytes, dtype, shape, strides, index/columns; cell "
         "values and no-data for Grid arguments) of every argument before the "
         "call, after the first and after the second call - all equal; the "
@@ -37,6 +38,9 @@ RULE = ("A registry of call specifications (about 120) covering the public "
 LAYOUTS = ["C", "F", "strided"]
 DTYPES = ["float64", "float64", "float32", "int64", "int32"]
 CONTAINERS = ["ndarray", "ndarray", "series", "frame"]
+# content of float arguments: as generated, or with a missing / negative
+# first value, or NaN scattered (functions may reject them - consistently)
+CONTENTS = ["plain", "plain", "nan-first", "neg-first", "nan-some"]
 
 
 # ------------------------------------------------------------------ snapshots
@@ -95,7 +99,8 @@ class Data:
         self.m = self.ens.shape[1]
 
     def V(self, a, containers=("ndarray", "series", "frame"),
-          dtypes=("float64", "float32", "int64", "int32"), intscale=True):
+          dtypes=("float64", "float32", "int64", "int32"), intscale=True,
+          inject=True):
         """Variant of array a chosen by the case (restricted to what the
         spec declares meaningful)."""
         c = self.case
@@ -104,6 +109,15 @@ class Data:
         if dt.startswith("int") and intscale:
             a = np.round(a * 10)
         a = a.astype(dt)
+        cont_ = c.get("content", "plain")
+        if a.dtype.kind == "f" and a.size and cont_ != "plain" and inject:
+            a = a.copy()
+            if cont_ == "nan-first":
+                a.flat[0] = np.nan
+            elif cont_ == "neg-first":
+                a.flat[0] = -abs(a.flat[0]) - 9999.
+            elif cont_ == "nan-some":
+                a.flat[::3] = np.nan
         lay = c["layout"]
         if lay == "F" and a.ndim == 2:
             a = np.asfortranarray(a)
@@ -752,7 +766,8 @@ def oracle(case):
     args, fn = make(d)
     before = [snap(a) for a in args]
     labels = [f"layout:{case['layout']}", f"dtype:{case['dtype']}",
-              f"container:{case['container']}"]
+              f"container:{case['container']}",
+              f"content:{case.get('content', 'plain')}"]
     results, errors, snaps = [], [], []
     for k in range(2):
         if seeded:
@@ -805,6 +820,7 @@ def make_strategy(group):
                 "ens": ens, "layout": draw(st.sampled_from(LAYOUTS)),
                 "dtype": draw(st.sampled_from(DTYPES)),
                 "container": draw(st.sampled_from(CONTAINERS)),
+                "content": draw(st.sampled_from(CONTENTS)),
                 "seed": draw(st.integers(0, 2**31 - 1))}
     return lambda tier: cases()
 
@@ -824,7 +840,14 @@ def enum_group(group):
                     for ct in sorted(set(CONTAINERS)):
                         yield {"spec": nm, "obs": obs, "ens": ens,
                                "layout": lay, "dtype": dt, "container": ct,
-                               "seed": 7}
+                               "content": "plain", "seed": 7}
+            # float64 C-contiguous arrays (not copied implicitly) with the
+            # special contents
+            for cc in sorted(set(CONTENTS) - {"plain"}):
+                for ct in sorted(set(CONTAINERS)):
+                    yield {"spec": nm, "obs": obs, "ens": ens, "layout": "C",
+                           "dtype": "float64", "container": ct,
+                           "content": cc, "seed": 7}
     return gen
 
 
